@@ -449,6 +449,29 @@ fn gen_rule(p: &Program, rng: &mut Rng, knobs: &GenKnobs, name: Option<String>) 
             stmts.push(Stmt::If(a));
         }
     }
+    // sort atoms whose variable is equated with something bound elsewhere: premise equalities are
+    // compiled away by unifying variables, which moves the sort atom onto the other variable
+    if ctx.rng.chance(1, 7) && !p.sorts.is_empty() {
+        if ctx.rng.chance(1, 3) || ctx.vars.is_empty() {
+            // x: S; y: S; x = y
+            let s = ctx.rng.usize_below(p.sorts.len());
+            let x = ctx.fresh_var(s);
+            let y = ctx.fresh_var(s);
+            stmts.push(Stmt::If(Atom::SortOf(x.clone(), s)));
+            stmts.push(Stmt::If(Atom::SortOf(y.clone(), s)));
+            stmts.push(Stmt::If(Atom::Eq(Term::Var(x), Term::Var(y))));
+        } else {
+            // ... u bound by an earlier atom ...; x: S; x = u
+            let (u, s) = ctx.rng.pick(&ctx.vars.clone()).clone();
+            let x = ctx.fresh_var(s);
+            stmts.push(Stmt::If(Atom::SortOf(x.clone(), s)));
+            if ctx.rng.chance(1, 2) {
+                stmts.push(Stmt::If(Atom::Eq(Term::Var(x), Term::Var(u))));
+            } else {
+                stmts.push(Stmt::If(Atom::Eq(Term::Var(u), Term::Var(x))));
+            }
+        }
+    }
     if shape >= 6 && shape < 24 && !enum_sorts.is_empty() && knobs.allow_enum {
         // match on a variable of enum sort
         let es = *ctx.rng.pick(&enum_sorts);
